@@ -295,6 +295,9 @@ func runReplayTest(p *Program, s *Session, testSrc, dir string) replayOutcome {
 	if v := firstLine(o, "GOVC-VIOLATION"); v != "" {
 		res.Confirmed = true
 		res.Reason = "the real function violates its contract: " + strings.TrimPrefix(v, "GOVC-VIOLATION ") + "   input: " + strings.TrimPrefix(firstLine(o, "GOVC-INPUT"), "GOVC-INPUT ")
+		if n := firstLine(o, "GOVC-NOTE"); n != "" {
+			res.Reason += "   " + strings.TrimPrefix(n, "GOVC-NOTE ")
+		}
 		return res
 	}
 	if !strings.Contains(o, "GOVC-END") {
